@@ -8,6 +8,7 @@ import JunoModel.C07.ModelBin
 import JunoModel.C07.ModelChain
 import JunoModel.C07.ModelPrune
 import JunoModel.C07.ModelLayout
+import JunoModel.C07.ModelCasm
 /-! Line-protocol driver for the C07 model (`lake build c07drv`).
 
 Requests (hex = lower-case hex, `-` = empty byte string):
@@ -68,6 +69,17 @@ Round 5 — prefix scans, the per-transaction layout of earlier binaries, the bl
   s.putold <mode> <num> <ntx> <nrc> <hex>*   TransactionLayoutPerTx.WriteTransactionsAndReceipts (hash index derived
                             from the transactions)                             → `ok` | `err` | `panic`
   s.btmigrate <mode> <fuel> blocktransactions.Migrator.Migrate on the block-record buckets → `ok` | `notfound` | `err` | `panic`
+
+Round 6 — the CASM-hash record of a declared class (core/class.go) and what a block does to it:
+  casmq <declaredAt> <v2> <migratedAt> <v1|n> <h>*   CasmHash, CasmHashV2, IsDeclaredWithV2, IsMigrated, then per height
+                            CasmHashAt / IsMigratedAt     → `ok <hex> <hex> <T|F> <T|F> (<hex|notfound> <T|F>)*`
+  casmops <declaredAt> <v2> <v1|n> <op>*   ops m<at> (Migrate) | u (Unmigrate) | r (MarshalBinary + UnmarshalBinary), a
+                            refused op leaves the record   → `<ok|err:class>* | <declaredAt> <v2> <migratedAt> <v1|n>`
+  s.casm.store <0|1 isV2> <n> <k> (<classhash> <casm> <0|1 defOk> <v2computed>)*k <classhash>*
+                            storeCasmHashMetadata (reads and writes the driver's store) → `ok` | `err:<class>`
+  s.casm.revert <k> <classhash>*k <classhash>*   revertCasmHashMetadata           → `ok` | `err:<class>`
+  s.casm.read <classhash> <h>*   CompiledClassHash, CompiledClassHashV2, CompiledClassHashAt per height
+                                                           → `ok <hex> <hex> <hex|notfound>*` | `missing` | `err`
 
 Value syntax (prefix form, space separated):
   n | _ | u<dec> | T | F | s<hex> | b<hex> | f<hex>,<hex>,<hex>,<hex> | r<hex of the item's CBOR>
@@ -264,9 +276,124 @@ def hashesOf (cfg : DecCfg) : List Bytes → Option (List Bytes)
     | some (.felt x y z w), some hs => some (feltBytes x y z w :: hs)
     | _, _ => none
 
+def casmErrName : CasmErr → String
+  | .v2Declared => "v2-declared"
+  | .beforeDeclared => "before-declared"
+  | .alreadyMigrated => "already-migrated"
+  | .notMigrated => "not-migrated"
+  | .metaMissing => "metadata-missing"
+  | .readFails => "read-fails"
+  | .noDefinition => "no-definition"
+
+def tf (b : Bool) : String := if b then "T" else "F"
+
+def optHex? (x : String) : Option (Option Bytes) := if x == "n" then some none else (hexToBytes? x).map some
+
+def showCasmMeta (m : CasmMeta) : String :=
+  s!"{m.declaredAt} {bytesToHex m.v2} {m.migratedAt} " ++ (match m.v1 with | some h => bytesToHex h | none => "n")
+
+def natAll? : List String → Option (List Nat)
+  | [] => some []
+  | x :: xs => do
+    let a ← x.toNat?
+    let r ← natAll? xs
+    pure (a :: r)
+
+def parseCasmOp (x : String) : Option CasmOp :=
+  if x == "u" then some .unmigrate
+  else if x == "r" then some .reload
+  else if x.startsWith "m" then (x.drop 1).toNat?.map .migrate
+  else none
+
+def casmOpsAll? : List String → Option (List CasmOp)
+  | [] => some []
+  | x :: xs => do
+    let a ← parseCasmOp x
+    let r ← casmOpsAll? xs
+    pure (a :: r)
+
+/-- Runs the operations, recording each outcome; a refused operation leaves the record (`CasmMeta.apply`). -/
+def runCasmOps (m : CasmMeta) : List CasmOp → List String × CasmMeta
+  | [] => ([], m)
+  | o :: os =>
+    let out : String := match o with
+      | .migrate a => (match m.migrate a with | .ok _ => "ok" | .error e => "err:" ++ casmErrName e)
+      | .unmigrate => (match m.unmigrate with | .ok _ => "ok" | .error e => "err:" ++ casmErrName e)
+      | .reload => (match CasmMeta.unmarshal m.marshal with | some _ => "ok" | none => "err:read-fails")
+    let r := runCasmOps (m.apply o) os
+    (out :: r.1, r.2)
+
+def parseCasmDecls : Nat → List String → Option (List CasmDecl × List String)
+  | 0, rest => some ([], rest)
+  | k + 1, c :: h :: d :: v :: rest => do
+    let c ← hexToBytes? c
+    let h ← hexToBytes? h
+    let v ← hexToBytes? v
+    let (es, rest') ← parseCasmDecls k rest
+    pure (⟨c, h, d == "1", v⟩ :: es, rest')
+  | _, _ => none
+
+def takeHex : Nat → List String → Option (List Bytes × List String)
+  | 0, rest => some ([], rest)
+  | k + 1, c :: rest => do
+    let c ← hexToBytes? c
+    let (es, rest') ← takeHex k rest
+    pure (c :: es, rest')
+  | _, _ => none
+
 def step (s : Store) (line : String) : Store × String :=
   match words line with
   | ["s.reset"] => ([], "ok")
+  | "casmq" :: d :: v2 :: mg :: v1 :: hs =>
+    match d.toNat?, hexToBytes? v2, mg.toNat?, optHex? v1, natAll? hs with
+    | some d, some v2, some mg, some v1, some hs =>
+      let m : CasmMeta := ⟨d, v2, mg, v1⟩
+      let per := hs.map (fun h => (match m.casmHashAt h with | some x => bytesToHex x | none => "notfound") ++ " " ++ tf (m.isMigratedAt h))
+      (s, " ".intercalate (["ok", bytesToHex m.casmHash, bytesToHex m.v2, tf m.isDeclaredWithV2, tf m.isMigrated] ++ per))
+    | _, _, _, _, _ => (s, "bad-op")
+  | "casmops" :: d :: v2 :: v1 :: ops =>
+    match d.toNat?, hexToBytes? v2, optHex? v1, casmOpsAll? ops with
+    | some d, some v2, some v1, some ops =>
+      let r := runCasmOps ⟨d, v2, 0, v1⟩ ops
+      (s, " ".intercalate (r.1 ++ ["|", showCasmMeta r.2]))
+    | _, _, _, _ => (s, "bad-op")
+  | "s.casm.store" :: isV2 :: n :: k :: rest =>
+    match n.toNat?, k.toNat? with
+    | some n, some k =>
+      match parseCasmDecls k rest with
+      | some (decls, rest') =>
+        match hexAll? rest' with
+        | some mig =>
+          if isV2 != "0" && isV2 != "1" then (s, "bad-op") else
+          match storeCasm (isV2 == "1") s s n ⟨decls, mig⟩ with
+          | .ok s' => (s', "ok")
+          | .error e => (s, "err:" ++ casmErrName e)
+        | none => (s, "bad-op")
+      | none => (s, "bad-op")
+    | _, _ => (s, "bad-op")
+  | "s.casm.revert" :: k :: rest =>
+    match k.toNat? with
+    | some k =>
+      match takeHex k rest with
+      | some (decls, rest') =>
+        match hexAll? rest' with
+        | some mig =>
+          match revertCasm s s ⟨decls.map (fun c => ⟨c, [], true, []⟩), mig⟩ with
+          | .ok s' => (s', "ok")
+          | .error e => (s, "err:" ++ casmErrName e)
+        | none => (s, "bad-op")
+      | none => (s, "bad-op")
+    | none => (s, "bad-op")
+  | "s.casm.read" :: c :: hs =>
+    match hexToBytes? c, natAll? hs with
+    | some c, some hs =>
+      match getCasmMeta s c with
+      | .ok m =>
+        (s, " ".intercalate (["ok", bytesToHex m.casmHash, bytesToHex m.v2] ++
+          hs.map (fun h => match compiledClassHashAt s c h with | some x => bytesToHex x | none => "notfound")))
+      | .error .metaMissing => (s, "missing")
+      | .error _ => (s, "err")
+    | _, _ => (s, "bad-op")
   | ["s.put", k, v] =>
     match hexToBytes? k, hexToBytes? v with
     | some k, some v => (s.put k v, "ok")
